@@ -8,9 +8,9 @@ use crate::dec::{new_dec, BufKind, Dec, Out};
 use crate::json::J;
 use crate::mon::{Finding, Mon, StepKind};
 use crate::par::par_chunks;
-use crate::refm::{canon, crc_update, crc_x25, START};
+use crate::refm::{canon, crc_x25, START};
 use crate::report::{finish, machinery, Counts, Ctx, Tally, Tier, Viol};
-use sml_rs::transport::DecoderSnapshot;
+use crate::dec::Snap as DecoderSnapshot;
 use std::collections::{HashMap, HashSet};
 use std::hash::{BuildHasherDefault, Hasher};
 
@@ -127,23 +127,11 @@ fn expand(s: Sym, out: &mut Vec<Gen>) {
 /// The two checksum bytes that can make the implementation's comparison succeed
 /// from this state: reference CRC continued from the register the hook exposes
 /// over the bytes received but not yet hashed (the pending escape payload).
-pub fn wanted_pub(s: &DecoderSnapshot) -> u16 {
-    wanted(s)
-}
 pub use Gen as G;
 pub fn sym_gens(s: Sym) -> Vec<Gen> {
     let mut v = vec![];
     expand(s, &mut v);
     v
-}
-fn wanted(s: &DecoderSnapshot) -> u16 {
-    let reg = s.crc ^ 0xffff;
-    let pend: &[u8] = if s.tag == 3 { &s.payload[..(s.n as usize).min(4)] } else { &[] };
-    let upto = match pend.iter().position(|&x| x == 0x1a) {
-        Some(k) => (k + 2).min(pend.len()),
-        None => pend.len(),
-    };
-    crc_update(reg, &pend[..upto]) ^ 0xffff
 }
 
 // ------------------------------------------------------------------ node
@@ -201,7 +189,7 @@ impl Node {
             // M-start, second half: from here on the decoder must be the decoder `new()` + start
             // sequence. A structural difference is escalated to a behavioural comparison, so that
             // only an observable difference is ever reported.
-            if self.dec.snap() != after_start_snapshot(self.kind) {
+            if !crate::dec::HOOKS_BUILT || self.dec.snap() != after_start_snapshot(self.kind) {
                 let mut fresh = new_dec(self.kind);
                 for b in START {
                     fresh.push(b);
@@ -252,7 +240,7 @@ impl Node {
                     let b = match gens.0[i] {
                         Gen::F(b) => b,
                         g => {
-                            let w = wanted(&self.dec.snap());
+                            let w = self.dec.wanted();
                             match g {
                                 Gen::Lo => w as u8,
                                 Gen::Hi => (w >> 8) as u8,
@@ -367,6 +355,7 @@ pub struct Explored {
     pub tally: Tally,
     pub other_findings: Counts,
     pub boundaries: Vec<(DecoderSnapshot, Vec<Sym>)>,
+    pub boundaries_dropped: u64,
     pub completed_depth: usize,
     pub capped: Option<String>,
     pub merged: u64,
@@ -445,6 +434,7 @@ fn entry_path(cfg: &Cfg, e: &[u8]) -> Vec<Sym> {
     p
 }
 
+pub const STATELESS_BOUNDARY_CAP: usize = 4000;
 pub fn explore(cfg: &Cfg, ctx: &Ctx) -> Explored {
     let mut ex = Explored::default();
     let mut seen: Vec<FpSet> = (0..NSHARDS).map(|_| FpSet::default()).collect();
@@ -558,9 +548,22 @@ pub fn explore(cfg: &Cfg, ctx: &Ctx) -> Explored {
                     ex.tally.add(v);
                 }
                 for (snap, pi, si) in co.bounds {
-                    if bound_seen.insert(snap.clone(), ()).is_none() {
-                        let mut np = entry_path(cfg, frontier.get(b0 + pi as usize));
-                        np.push(cfg.alphabet[si as usize]);
+                    let mut np = entry_path(cfg, frontier.get(b0 + pi as usize));
+                    np.push(cfg.alphabet[si as usize]);
+                    // without a usable snapshot every boundary path is its own boundary state; the
+                    // first STATELESS_BOUNDARY_CAP of them (breadth-first order) are examined
+                    let key = if crate::dec::hooks_complete() {
+                        snap.clone()
+                    } else {
+                        if ex.boundaries.len() >= STATELESS_BOUNDARY_CAP {
+                            ex.boundaries_dropped += 1;
+                            continue;
+                        }
+                        let mut k = DecoderSnapshot::opaque();
+                        k.buf = path_str(&np).into_bytes();
+                        k
+                    };
+                    if bound_seen.insert(key, ()).is_none() {
                         ex.boundaries.push((snap, np));
                     }
                 }
